@@ -52,9 +52,15 @@ def fingerprint(obj, _depth=0):
     if isinstance(obj, np.ndarray):
         return ("ndarray", obj.shape, str(obj.dtype), tuple(fingerprint(x, _depth + 1) for x in obj.ravel().tolist()))
     if isinstance(obj, sympy.Basic):
-        return ("sympy", sympy.srepr(obj))
+        try:
+            return ("sympy", sympy.srepr(obj))
+        except RecursionError:
+            return ("sympy-hash", hash(obj))
     if isinstance(obj, sympy.MatrixBase):
-        return ("sympymat", obj.shape, tuple(sympy.srepr(x) for x in obj))
+        try:
+            return ("sympymat", obj.shape, tuple(sympy.srepr(x) for x in obj))
+        except RecursionError:
+            return ("sympymat-hash", obj.shape, tuple(hash(x) for x in obj))
     if isinstance(obj, (list, tuple)):
         return (type(obj).__name__, tuple(fingerprint(x, _depth + 1) for x in obj))
     if isinstance(obj, (set, frozenset)):
